@@ -71,6 +71,9 @@ pub fn run_resolve(i: &Input) -> Result<(), String> {
         3 => (user_module(&refs, Some("Limits"), false), Some(format!("Limits {OID_S} DEFINITIONS AUTOMATIC TAGS ::= BEGIN\n{}END", decls(&values)))),
         // declarations missing altogether: must be a resolve error
         4 => (user_module(&refs, Some("Limits"), false), None),
+        // a chain of imports: Messages imports from Middle, Middle imports from Limits (two hops)
+        6 => (user_module(&refs, Some("Middle"), false),
+              Some(format!("Limits DEFINITIONS AUTOMATIC TAGS ::= BEGIN\n{}END\u{1}Middle DEFINITIONS AUTOMATIC TAGS ::= BEGIN\nIMPORTS {} FROM Limits;\nEND", decls(&values), NAMES.join(", ")))),
         // a non-integer where an integer is needed
         _ => (user_module(&refs, None, true).replace("@DECLS@", &decls(&values).replace(&format!("vHi INTEGER ::= {hi}"), "vHi UTF8String ::= \"abc\"")), None),
     };
@@ -82,7 +85,8 @@ pub fn run_resolve(i: &Input) -> Result<(), String> {
         _ => Some(format!("Unrelated {OID_U} DEFINITIONS AUTOMATIC TAGS ::= BEGIN\n{}END", decls(&other))),
     };
     let mut texts: Vec<String> = vec![user];
-    texts.extend(sibling);
+    // a sibling entry may hold several modules separated by \u{1}
+    texts.extend(sibling.iter().flat_map(|t| t.split('\u{1}').map(|x| x.to_string())));
     texts.extend(decoy_text);
     // load order: rotate / reverse
     let n = texts.len();
@@ -95,7 +99,7 @@ pub fn run_resolve(i: &Input) -> Result<(), String> {
         _ => { texts.rotate_left(2 % n); texts.reverse(); }
     }
     let got = resolve_all(&texts);
-    if placement >= 4 {
+    if placement == 4 || placement == 5 {
         return match got {
             Err(_) => Ok(()),
             Ok(m) => Err(format!("{} resolved without an error: {}", if placement == 4 { "a reference to a module that is not loaded" } else { "a non-integer value used as INTEGER bound" },
@@ -111,7 +115,7 @@ pub fn run_resolve(i: &Input) -> Result<(), String> {
 }
 
 pub fn search_resolve(try_one: &mut dyn FnMut(Input) -> bool) {
-    for placement in 0..6 {
+    for placement in 0..7 {
         for decoy in 0..3 {
             for order in 0..6 {
                 for ir in 0..INT_RANGES.len() {
@@ -150,12 +154,15 @@ pub fn grid() -> Vec<i64> {
     g
 }
 
-/// v = [min, max]: the generated accessors of `V ::= INTEGER (min..max)` return min and max
+/// v = [min, max, form]: the generated accessors of `V ::= INTEGER (min..max)` return min and max
+/// form 0: (min..max); 1: (min..max, ...); 2: (min..MAX, ...) -- only the lower bound is declared
 pub fn run_inttext(i: &Input) -> Result<(), String> {
     use asn1rs::model::generate::rust::RustCodeGenerator;
     use asn1rs::model::generate::Generator;
-    let (min, max) = (i.v[0] as i64, i.v[1] as i64);
-    let text = format!("M DEFINITIONS AUTOMATIC TAGS ::= BEGIN V ::= INTEGER ({min}..{max}) S ::= SEQUENCE {{ f INTEGER ({min}..{max}) }} END");
+    let (min, mut max) = (i.v[0] as i64, i.v[1] as i64);
+    let form = i.v.get(2).copied().unwrap_or(0);
+    let range = match form { 0 => format!("{min}..{max}"), 1 => format!("{min}..{max}, ..."), _ => { max = i64::MAX; format!("{min}..MAX, ...") } };
+    let text = format!("M DEFINITIONS AUTOMATIC TAGS ::= BEGIN V ::= INTEGER ({range}) S ::= SEQUENCE {{ f INTEGER ({range}) }} END");
     let model = Model::try_from(Tokenizer::default().parse(&text)).map_err(|e| format!("{e:?}"))?.try_resolve().map_err(|e| format!("{e:?}"))?.to_rust();
     let mut gen = RustCodeGenerator::default();
     gen.add_model(model);
@@ -194,6 +201,15 @@ pub fn run_inttext(i: &Input) -> Result<(), String> {
 
 pub fn search_inttext(try_one: &mut dyn FnMut(Input) -> bool) {
     let g = grid();
+    // extensible ranges and ranges with an open upper bound (lower bound >= 0: an absent / negative-open lower bound is KF-C15-min)
+    for a in g.iter().filter(|a| **a >= 0) {
+        for form in [1i128, 2] {
+            let b = a.saturating_add(1000);
+            if try_one(Input::new("front_inttext").v(*a).v(b).v(form)) {
+                return;
+            }
+        }
+    }
     // every bound of the grid as min (with a fixed larger max) and as max (with a fixed smaller min), plus neighbours
     for (k, a) in g.iter().enumerate() {
         for b in [g.get(k + 1), g.get(k + 7), g.last()].into_iter().flatten() {
